@@ -1,1 +1,52 @@
-From Servitor Require Import Base.
+(* C06 - Rendering any fetched object at any terminal size neither crashes nor hangs.  (PARTIAL)
+   The rendering model (Html/Gemtext/Plaintext/Style/Ansi) consists of total Gallina functions
+   over ALL trees, texts and widths in Z; the spots where the Go code could panic are modelled
+   explicitly (res/Panic) and shown unreachable or repaired: superscript of a negative number,
+   strings.Repeat with a negative count (<hr>), link numbers below 1 (select).  The equality of
+   model and code is what the C12/C15/C01 correspondences establish; "promptly" is observed, and
+   a polynomial size bound is REFUTED for indenting blocks nested beyond the width (recorded
+   finding C06/indent-depth-exceeds-width).  Only property theorems here. *)
+
+From Servitor Require Import Base Unicode Ansi Style Html HtmlTags.
+From Servitor.Facts Require Import SizeFacts LinkFacts.
+Local Open Scope Z_scope.
+
+(* no tree, width or link state is without a result *)
+Theorem render_total :
+  forall (col : colors) (ns : list node) (w : Z),
+  exists (t : text) (links : list text), render_with_links col ns w = (t, links).
+Proof. exact render_total_fact. Qed.
+Print Assumptions render_total.
+
+(* link numbers are list lengths, for which superscript cannot panic *)
+Theorem superscript_nat_ok :
+  forall n : nat, exists t : text, superscript (Z.of_nat n) = Ok t.
+Proof. exact superscript_nat_ok_fact. Qed.
+Print Assumptions superscript_nat_ok.
+
+(* (it would for a negative number: the case is excluded by construction) *)
+Theorem superscript_negative :
+  forall z : Z, z < 0 -> superscript z = Panic.
+Proof. exact superscript_negative_fact. Qed.
+Print Assumptions superscript_negative.
+
+(* <hr> at a non-positive width is an empty block (the repaired negative Repeat count) *)
+Theorem hr_clamped :
+  forall (col : colors) (p pre : bool) (w : Z) (st : lstate),
+  w <= 0 -> render_node col (NElem k_hr [] []) p pre w st = (block [], st).
+Proof. exact hr_clamped_fact. Qed.
+Print Assumptions hr_clamped.
+
+(* link numbers below 1 or above N select nothing instead of indexing out of range *)
+Theorem outside_opens_nothing :
+  forall (links : list text) (k : Z),
+  k < 1 \/ Z.of_nat (length links) < k -> select links k = None.
+Proof. exact outside_opens_nothing_fact. Qed.
+Print Assumptions outside_opens_nothing.
+
+(* no polynomial bound: from depth 4 on, every further blockquote level at width 3 more than doubles the line count *)
+Theorem render_size_refuted :
+  forallb (fun d : nat => (2 * nested_lines d 3 <=? nested_lines (S d) 3)%nat)
+  [4%nat; 5%nat; 6%nat; 7%nat] = true.
+Proof. exact render_size_refuted_fact. Qed.
+Print Assumptions render_size_refuted.
